@@ -362,6 +362,26 @@ fn chk_enqueue(c: &mut Ctx, seed: u8, fail: u8) {
     if r.is_ok() && after.values().zip(before.values()).any(|(a, b)| !b.messages.is_empty() && a.messages_url.is_none()) { c.fail(f, "stub#url", input.clone(), format!("{:?}", after), "an uploaded conversation leaves its url".into()); }
 }
 
+/// redact_secrets_from_prompts (driver only, ORIGINAL text; the text masker is the stand-in above): C08 clause 2 asks that a flagged
+/// token is masked wherever it occurs in the conversation.  KNOWN FINDING: the input of a tool_use message is skipped.
+/// input: the token (a word starting with SECRET)
+fn chk_tooluse(c: &mut Ctx, token: &str) {
+    c.evaluated += 1;
+    let f = "redact_secrets_from_prompts";
+    let mut rec = record(1, false);
+    rec.messages = vec![
+        Message::User { text: format!("deploy with key {} please", token), timestamp: None },
+        Message::ToolUse { name: "bash".into(), input: format!("curl -H Bearer {} https://api.example.com/deploy", token), timestamp: None },
+    ];
+    let input = format!("{} | prompts = {{h1: messages [User {{text: \"deploy with key {} please\"}}, ToolUse {{name: \"bash\", input: \"curl -H Bearer {} https://api.example.com/deploy\"}}]}}", token, token, token);
+    let mut prompts: BTreeMap<String, PromptRecord> = BTreeMap::new(); prompts.insert("h1".into(), rec);
+    let n = match guarded(|| redact_secrets_from_prompts(&mut prompts)) { Err(pn) => { c.fail(f, "safety", input, pn, "no panic".into()); return; } Ok(n) => n };
+    let ms = &prompts["h1"].messages;
+    if ms.len() != 2 { c.fail(f, "messages_kept", input.clone(), format!("{:?}", ms), "both messages kept".into()); return; }
+    match &ms[0] { Message::User { text, .. } if !text.contains(token) && text.contains("MASKED") && n >= 1 => {} m => { c.fail(f, "text_message_masked", input.clone(), format!("{:?} count {}", m, n), "the token in the user message is masked and counted".into()); } }
+    match &ms[1] { Message::ToolUse { input: i, .. } if !i.contains(token) => {} m => { c.fail(f, "tool_use_input_not_masked", input.clone(), format!("{:?}", m), "the same token is masked in the tool_use input too: no flagged token of the conversation in clear".into()); } }
+}
+
 fn main() {
     let a: Vec<String> = std::env::args().collect();
     let mut c = Ctx { evaluated: 0, failed: Default::default() };
@@ -388,12 +408,14 @@ fn main() {
             let mut rng = Rng(seed.wrapping_mul(77) | 1);
             for _ in 0..500 { let names = ["a", "b.lock", "c", "d/e", "f.lock"]; let n = rng.below(5) as usize; let fs: Vec<(&str, Vec<u32>)> = (0..n).map(|i| (names[i], (0..rng.below(6)).map(|_| rng.below(9) as u32).collect())).collect(); chk_estimate(&mut c, &fs); }
         }
+        if want("redact_secrets_from_prompts") { chk_tooluse(&mut c, "SECRETsk_live_4eC39HqLyjWDarjtT1zdp7dcQ9xZ"); }
         if want("enqueue_prompt_messages_to_cas") { for s in 0..4u8 { for fl in [0u8, 7, 8] { chk_enqueue(&mut c, s, fl); } } }
     } else {
         let f = a[2].as_str(); let inp = a[3].as_str();
         if f.ends_with("region_pc_flow") { chk_flow(&mut c, &plan_parse(inp)); }
         else if f.ends_with("update_prompts_to_latest") { let (r, s) = inp.split_once('|').unwrap(); let spec: Vec<(u8, u8)> = s.split(',').filter(|x| !x.is_empty()).map(|x| { let b = x.as_bytes(); (b[0] - b'0', b[1] - b'0') }).collect(); chk_upd(&mut c, &spec, r.parse().unwrap()); }
         else if f.ends_with("should_skip_expensive_post_commit_stats") { let v: Vec<usize> = inp.split(',').map(|x| x.parse().unwrap()).collect(); chk_skip(&mut c, v[0], v[1], v[2]); }
+        else if f.ends_with("redact_secrets_from_prompts") { chk_tooluse(&mut c, inp.split(' ').next().unwrap()); }
         else if f.ends_with("enqueue_prompt_messages_to_cas") { let v: Vec<u8> = inp.split(',').map(|x| x.parse().unwrap()).collect(); chk_enqueue(&mut c, v[0], v[1]); }
     }
     println!("DONE evaluated={}", c.evaluated);
